@@ -864,7 +864,14 @@ func c11StyleOps(c *Cfg, goccy bool, s string) {
 				ans = "weird"
 			}
 			c.Op("O", fmt.Sprintf("style v %s %s %s %s %s", H(s), c11B(multi), lex, libq, c11NonPrint(s)), ans)
+			if !multi && ans == "plain" {
+				c11FlowOp(c, s)
+			}
+			if !multi && ans == "single" && strings.HasSuffix(out, "\n") {
+				c11SingleText(c, s, out[3:len(out)-1], false)
+			}
 			if multi && ans == "literal" {
+				c11BlockText(c, s, out)
 				// tie of the block model (emitBlock/parseBlock) to the library: what the real
 				// decoder reads back from the real literal block
 				back := "err"
@@ -886,6 +893,9 @@ func c11StyleOps(c *Cfg, goccy bool, s string) {
 			ans = c11VisibleStyle(out)
 		}
 		c.OpTag("O", c11KnownKeyStyle(s), fmt.Sprintf("style k %s 0 %s %s %s", H(s), lex, libq, c11NonPrint(s)), ans)
+		if ans == "single" {
+			c11SingleText(c, s, strings.TrimSuffix(out, ": 1\n"), true)
+		}
 		return
 	}
 	// yaml.v3 based encoder: the in-repo decision is legacyStrings/useQuote → double quotes,
